@@ -290,6 +290,13 @@ class DumpExec:
                     p.nodes.append(st)
                     return [(p, env)]
             raise AnalysisError("unsupported loop in dumper %s" % func.qual)
+        if isinstance(st, ast.Try) and not st.finalbody and not st.orelse and len(st.handlers) == 1 and len(st.body) == 1:
+            # try: stream.append(TABLE[obj + K])  except IndexError/KeyError: <general form>
+            # = if obj in M: stream.append(M[obj]) else: <general form>, M the mapping the lookup implements (a list index also
+            # accepts -len..-1 and wraps). M must be the immediate table itself; any difference is recorded for R04.3.
+            rw = self._lookup_try(st, env, func)
+            if rw is not None:
+                return self.stmt(rw, p, env, func, depth)
         if isinstance(st, ast.Raise):
             p = p.clone()
             p.raw.append(("raise", st.exc, st))
@@ -300,6 +307,68 @@ class DumpExec:
             p.done = True
             return [(p, env)]
         raise AnalysisError("unsupported statement in dumper %s: %s" % (func.qual, A.norm(st)[:60]))
+
+    def _lookup_try(self, st, env, func):
+        h = st.handlers[0]
+        b = st.body[0]
+        prm = A.params(func.node)
+        if not (isinstance(b, ast.Expr) and isinstance(b.value, ast.Call) and A.call_name(b.value) == prm[1] + ".append" and
+                len(b.value.args) == 1 and isinstance(b.value.args[0], ast.Subscript) and h.name is None):
+            return None
+        sub = subst(b.value.args[0], env)
+        caught = {A.dotted(x) for x in (h.type.elts if isinstance(h.type, ast.Tuple) else [h.type])} if h.type is not None else set()
+        try:
+            tbl = self.ctx.folder.fold(sub.value, self.mod)
+            ref = self.ctx.folder.fold(ast.Name(id="IMM_INTS", ctx=ast.Load()), self.mod)
+        except Unfoldable:
+            return None
+        idx = sub.slice
+        off = 0
+        if isinstance(idx, ast.BinOp) and isinstance(idx.op, (ast.Add, ast.Sub)):
+            l, r = idx.left, idx.right
+            try:
+                if isinstance(l, ast.Name) and l.id == self.objname:
+                    k = self.ctx.folder.fold(r, self.mod)
+                    off = k if isinstance(idx.op, ast.Add) else -k
+                elif isinstance(r, ast.Name) and r.id == self.objname and isinstance(idx.op, ast.Add):
+                    off = self.ctx.folder.fold(l, self.mod)
+                else:
+                    return None
+            except Unfoldable:
+                return None
+            if not isinstance(off, int):
+                return None
+        elif not (isinstance(idx, ast.Name) and idx.id == self.objname):
+            return None
+        if isinstance(tbl, (list, tuple)) and caught & {"IndexError", "LookupError", "Exception"}:
+            n = len(tbl)
+            mapping = {i - off: tbl[i] for i in range(-n, n)}
+        elif isinstance(tbl, dict) and caught & {"KeyError", "LookupError", "Exception"}:
+            mapping = {k - off: v for k, v in tbl.items() if isinstance(k, int)}
+        else:
+            return None
+        if not isinstance(ref, dict):
+            return None
+        if mapping != ref:
+            wrong = sorted(k for k in mapping if mapping[k] != ref.get(k))
+            miss = sorted(k for k in ref if k not in mapping)
+            notes = getattr(self.ctx, "_imm_mismatch", None)
+            if notes is None:
+                notes = self.ctx._imm_mismatch = {}
+            notes[func.qual] = (st, "`%s` succeeds for %d int value(s) outside the immediate table (e.g. %s is written as the byte of "
+                                "%s)" % (A.src(sub), len(wrong), wrong[-1], [k for k, v in ref.items() if v == mapping[wrong[-1]]][:1])
+                                if wrong else "`%s` misses immediate value(s) %s" % (A.src(sub), miss[:3]))
+        obj = ast.Name(id=self.objname, ctx=ast.Load())
+        tname = ast.Name(id="IMM_INTS", ctx=ast.Load())
+        app = ast.Expr(value=ast.Call(func=b.value.func, args=[ast.Subscript(value=tname, slice=obj, ctx=ast.Load())], keywords=[]))
+        new = ast.If(test=ast.Compare(left=obj, ops=[ast.In()], comparators=[tname]), body=[app], orelse=list(h.body))
+        ast.copy_location(new, st)
+        ast.copy_location(app, b)
+        ast.fix_missing_locations(new)
+        for x in ast.walk(new):
+            if not hasattr(x, "_module") and hasattr(st, "_module"):
+                x._module = st._module
+        return new
 
     def atoms(self, e):
         if isinstance(e, ast.BinOp) and isinstance(e.op, ast.Add):
